@@ -580,9 +580,10 @@ impl SourceLocation for ForClauseCommand {
 
 impl Display for ForClauseCommand {
     fn fmt(&self, f: &mut std::fmt::Formatter<'_>) -> std::fmt::Result {
-        write!(f, "for {} in ", self.variable_name)?;
+        write!(f, "for {}", self.variable_name)?;
 
         if let Some(values) = &self.values {
+            write!(f, " in ")?;
             for (i, value) in values.iter().enumerate() {
                 if i > 0 {
                     write!(f, " ")?;
